@@ -5,6 +5,12 @@ COMMON_TRUST = [
     "Go `int` lengths treated as unbounded naturals (buffers fit in memory); uint64 wire quantities exact (BitVec 64)",
 ]
 
+E2E_TRUST = COMMON_TRUST + [
+    "Go runtime (goroutines, sync, channels) trusted; the two-endpoint behaviour is explored, not modelled: the Lean theorems "
+    "cover the wire codec, the reader, the stream state machine and the dispatch decision",
+    "quiescence detection by stop-the-world goroutine snapshots; transport = the director's in-memory pipe (bytes in order, "
+    "unmodified, arbitrary pieces and delays; Close/failure make pending and later calls fail)"]
+
 PROPS = {
     "C14": dict(
         modules=["Drpc.Props.C14", "Drpc.Tie.C14"],
@@ -299,5 +305,28 @@ PROPS = {
                                 "quiescence detection by stop-the-world goroutine snapshots; transport = the director's in-memory pipe "
                                 "(bytes in order, unmodified, arbitrary pieces and delays; Close/failure make pending and later calls fail)"],
         assumptions=['goroutine census by runtime.Stack at quiescence'],
+    ),
+    "C01": dict(
+        modules=["Drpc.Props.C01", "Drpc.Tie.C08", "Drpc.Tie.C09", "Drpc.Tie.Manager"],
+        suites=["e2e", "stream"],
+        rule="e2e delivery family: 1-4 RPCs of all shapes per connection, message bodies of {0,1,6,8,20,100,5000,70000} bytes carrying "
+             "(rpc, direction, sequence, length, crc), 8 split/writer-buffer/flush/cancel configurations, transport flowing or driven in "
+             "random pieces (every acknowledge/deliver step recorded); oracles: order, integrity, no duplication, arrival of every "
+             "successful send without a further call, completeness after half-close. stream suite (real Stream under the director, "
+             "parked writes/Marshal/Unmarshal): every auto-flushed MsgSend that returned nil is completely in completed transport "
+             "writes; observations equal the atomic-step model's",
+        trusted=E2E_TRUST,
+        assumptions=["user encodings do not retain the lent receive buffer"],
+    ),
+    "C05": dict(
+        modules=["Drpc.Props.C05", "Drpc.Tie.C09", "Drpc.Tie.Manager"],
+        suites=["e2e", "stream"],
+        rule="e2e fault family: random workloads of 1-2 RPCs over a manually stepped transport; at I/O step k (every k in the thorough "
+             "tier, a sample in quick) the transport of either endpoint breaks (all its reads and writes fail), or an end is taken down "
+             "from outside; the application then carries on with the rest of its calls. Judged at quiescence: nothing pending, Closed() "
+             "signalled, later calls fail, a write that failed is reported, what was delivered is intact and a prefix, no panic. stream "
+             "suite: transport write failures at stream level, packet-buffer wake-ups with a parked Unmarshal",
+        trusted=E2E_TRUST,
+        assumptions=["transport contract: a broken transport fails all pending and later reads and writes of that end"],
     ),
 }
